@@ -180,7 +180,10 @@ class Ctx:
         rep = None
         if replay is not None:
             try:
-                rep = replay(model)
+                import contextlib, io
+
+                with contextlib.redirect_stdout(io.StringIO()):
+                    rep = replay(model)
             except Exception:
                 rep = {"reproduced": False, "error": traceback.format_exc(limit=4)}
         wc = None
